@@ -2,6 +2,8 @@
 //! Runs the real crate on generated inputs and writes cases / observations for the Coq model to re-evaluate.
 mod c01;
 mod c05;
+mod c06;
+mod ciftext;
 mod c07;
 mod c08;
 mod c09;
@@ -83,6 +85,7 @@ fn main() {
     match prop.as_str() {
         "C01" => c01::run(seed, count, thorough, &mut out),
         "C05" => c05::run(seed, count, thorough, &mut out),
+        "C06" => c06::run(seed, count, thorough, &mut out),
         "C07" => c07::run(seed, count, &mut out, &tmp),
         "C08" => c08::run(seed, count, thorough, &mut out),
         "C09" => c09::run(seed, count, thorough, &mut out),
